@@ -20,7 +20,7 @@ func repoPkg(rel string) *pkg { return load(filepath.Join(*repo, rel)) }
 func genB1T6() {
 	p := repoPkg("pkg/encoding/b1t6")
 	tri := load(filepath.Join(iotaGoDir(), "trinary"))
-	g := newGen("B1T6")
+	g := newGenHdr("B1T6", loopHeaderText+flowHeaderText, "Iota.Model.GoBits")
 	g.def("tritsPerByte", "Int", p.intConst("tritsPerByte"))
 	g.def("trytesPerByte", "Int", p.intConst("trytesPerByte"))
 	g.raw(translateFunc(p, "encodeGroup"))
@@ -67,7 +67,11 @@ func genB1T6() {
 	})
 	g.def("b1t8Masks", "List Nat", "["+strings.Join(masks, ", ")+"]")
 	g.def("b1t8Shifts", "List Nat", "["+strings.Join(shifts, ", ")+"]")
-	g.src(q, "Encode", "Decode")
+	// b1t8.go translated as code (tied to the model in Iota/Tie/B1T8Code.lean); not pinned by text
+	g.raw("namespace b1t8\n" + translateLoopFuncs(q, "EncodedLen", "Encode", "Decode") + "end b1t8\n")
+	for _, n := range []string{"Encode", "Decode"} {
+		pinnedFns[q.method(n)] = true
+	}
 	g.rest(q, "b1t8")
 	g.write()
 }
@@ -270,7 +274,7 @@ func genCurl() {
 func genPow() {
 	p1 := repoPkg("pkg/pow")
 	p2 := repoPkg("pkg/pow/v2")
-	g := newGen("Pow")
+	g := newGenHdr("Pow", loopHeaderText+flowHeaderText, "Iota.Model.GoBits")
 	g.def("nonceBytesV1", "Int", p1.intConst("nonceBytes"))
 	g.def("nonceBytesV2", "Int", p2.intConst("nonceBytes"))
 	g.def("tritsPerUint64", "Int", p2.intConst("tritsPerUint64"))
@@ -288,7 +292,10 @@ func genPow() {
 	g.def("capturesV2", "List String", closureCaptures(p2, "Worker.Mine"))
 	g.def("counterAccessesV1", "List String", identUses(p1, []string{"Worker.Mine", "Worker.worker"}, "counter"))
 	g.def("counterAccessesV2", "List String", identUses(p2, []string{"Worker.Mine", "Worker.worker"}, "counter"))
-	g.src(p1, "Score", "trailingZeros", "encodeNonce", "New", "Worker.Mine", "Worker.worker", "checkStateTrits")
+	// v1 checkStateTrits translated as code (tied to the model in Iota/Tie/PowCode.lean); not pinned by text
+	g.raw("namespace v1\n" + translateLoopFuncs(p1, "checkStateTrits") + "end v1\n")
+	pinnedFns[p1.method("checkStateTrits")] = true
+	g.src(p1, "Score", "trailingZeros", "encodeNonce", "New", "Worker.Mine", "Worker.worker")
 	g.src(p2, "Score", "difficulty", "encodeNonce", "toInt", "tritToUint", "hexToInt", "New", "Worker.Mine",
 		"sufficientTrailingZeros", "targetHash", "Worker.worker", "checkStateTrits", "stateToInt")
 	g.rest(p1, "pow")
@@ -361,7 +368,7 @@ func (p *pkg) callArgsInFunc(fn, lhs string) string {
 func genEd() {
 	p := repoPkg("pkg/ed25519")
 	v := repoPkg("pkg/vrf")
-	g := newGen("Ed")
+	g := newGenHdr("Ed", loopHeaderText+flowHeaderText, "Iota.Model.GoBits")
 	g.def("publicKeySize", "Int", p.intConst("PublicKeySize"))
 	g.def("privateKeySize", "Int", p.intConst("PrivateKeySize"))
 	g.def("signatureSize", "Int", p.intConst("SignatureSize"))
@@ -377,7 +384,10 @@ func genEd() {
 		v.compositeInts(v.varExpr("proofToHashDomainSeparatorFront"))+", "+v.compositeInts(v.varExpr("proofToHashDomainSeparatorBack"))+"]")
 	g.def("vrfNonCanonicalSignBytes", "List (List Int)", v.compositeInts(v.varExpr("nonCanonicalSignBytes")))
 	g.src(v, "Prove", "ProofToHash", "Verify", "encodeToCurveTryAndIncrement", "challengeGeneration", "validateKey",
-		"Proof.Hash", "Proof.Bytes", "Proof.SetBytes", "Proof.UnmarshalBinary", "newPointFromCanonicalBytes", "isCanonicalY")
+		"Proof.Hash", "Proof.Bytes", "Proof.SetBytes", "Proof.UnmarshalBinary", "newPointFromCanonicalBytes")
+	// isCanonicalY translated as code (tied to the model in Iota/Tie/VrfCode.lean); not pinned by text
+	g.raw("namespace vrf\n" + translateLoopFuncs(v, "isCanonicalY") + "end vrf\n")
+	pinnedFns[v.method("isCanonicalY")] = true
 	g.rest(p, "ed25519")
 	g.rest(v, "vrf")
 	g.write()
